@@ -115,6 +115,11 @@ func C11(c *core.Ctx) {
 	sendReqAlwaysBooks(c, "R2")
 	// ... nor by leaving the emission loop after numbers were handed out (C10 R5 batch isolation)
 	shareFrom(c, "C10", "R2", func(o *core.Obligation) bool { return o.Rule == "R5" && strings.Contains(o.Key, "/R5/batch-isolation") }, 3, "emission loops")
+	// ... nor are numbers taken twice for one request: a retransmitted Modification/Deletion Request inside the peer's
+	// retransmission time is answered from the cache, not executed again with fresh UR-SEQNs (C06 R1/R4)
+	shareFrom(c, "C06", "R2", func(o *core.Obligation) bool {
+		return (o.Rule == "R4" && strings.Contains(o.Key, "/R4/retention-")) || (o.Rule == "R1" && strings.Contains(o.Key, "/R1/dispatch-iff-new"))
+	}, 2, "retransmission rules")
 	for fn, iesName := range siteFn {
 		checkEmissionSite(c, fn, iesName, urrSeq, urrids)
 	}
@@ -668,6 +673,12 @@ func C12(c *core.Ctx) {
 		renameRule(c, "R5", "R6", func() { c01Close(c, sets) })
 		c01EndPaths(c, "R6", false)
 	}
+	// R7: "the usage measured so far is returned": the final report carries its Volume/Duration Measurement IEs — the
+	// response encoders append them under the URR's measurement method alone (C10 R2), and the stored method and
+	// information survive an Update URR that does not carry them (C10 R3)
+	shareFrom(c, "C10", "R7", func(o *core.Obligation) bool {
+		return (o.Rule == "R2" && strings.Contains(o.Key, "/R2/ie-builder:")) || (o.Rule == "R3" && strings.Contains(o.Key, "/R3/profile-update-if-present:"))
+	}, 3, "report encoders and profile updates")
 	// R5 creation order in the handlers
 	for _, h := range []string{"handleSessionEstablishmentRequest", "handleSessionModificationRequest"} {
 		fn := fnOf(c, "R5", pkgPfcp, "PfcpServer", h)
